@@ -1844,14 +1844,10 @@ mod builtins {
         {
             Ok(Value::from_object(MergeSeq::new(all_values)))
         } else {
-            // General iterator chaining behavior
-            Ok(Value::make_object_iterable(all_values, |values| {
-                Box::new(values.iter().flat_map(|v| match v.try_iter() {
-                    Ok(iter) => Box::new(iter) as Box<dyn Iterator<Item = Value> + Send + Sync>,
-                    Err(err) => Box::new(Some(Value::from(err)).into_iter())
-                        as Box<dyn Iterator<Item = Value> + Send + Sync>,
-                })) as Box<dyn Iterator<Item = Value> + Send + Sync>
-            }))
+            // General iterator chaining behavior.  This shares the depth accounting
+            // of sequence concatenation so that a value which is chained with itself
+            // over and over does not nest without bound.
+            Ok(Value::from_object(MergeSeq::new_iterable(all_values)))
         }
     }
 
